@@ -2,3 +2,4 @@ import Rbacx.Model.Engine
 import Rbacx.Proofs.PolicyLoop
 import Rbacx.Proofs.EvaluateSpec
 import Rbacx.Properties.C02
+import Rbacx.Properties.C15
